@@ -8,12 +8,14 @@ Variable H : string -> string.
 Variable enc : list json -> string.
 Variable parse_index : string -> option nat.
 Variable parse_usize : string -> option nat.
+Variable pos : string -> nat.
+Notation add_sd := (T1a.add_sd pos).
 Notation blind := (blind H enc).
 Notation dig_item := (dig_item H enc).
 Notation dig_mem := (dig_mem H enc).
 Notation wf := (wf H enc).
 Notation IsNode := (IsNode H enc).
-Notation mark := (mark H enc parse_index parse_usize).
+Notation mark := (mark H enc parse_index parse_usize pos).
 Notation target := (target parse_index parse_usize).
 Notation mk_disc := (mk_disc H enc).
 Notation proj := (proj H enc).
@@ -34,7 +36,7 @@ Proof.
       apply upd_mem_inv in Eu as (pre & x & post & x' & Hsplit & -> & Hf & Hni).
       destruct x as [[| |] s0]; try discriminate. injection Hf as <-.
       rewrite Hsplit, find_mid in Hm, Ht by assumption. injection Hm as <-. injection Ht as <- <-.
-      pose proof (wf_obj_names H enc parse_index parse_usize _ Hw) as Hn0.
+      pose proof (wf_obj_names H enc parse_index parse_usize pos _ Hw) as Hn0.
       assert (Hn' : Forall sd_names_ok (pre ++ (key, (MHid salt, s0)) :: post)).
       { rewrite Hsplit in Hn0. apply Forall_app in Hn0 as [Hn1 Hn2]. apply Forall_app. split; [assumption|].
         inversion Hn2; subst. constructor; [|assumption]. unfold sd_names_ok in *. cbn in *. assumption. }
@@ -85,7 +87,7 @@ Proof.
       apply upd_mem_inv in Eu as (pre & x & post & x' & Hsplit & -> & Hf & Hni).
       destruct x as [[| |] s0]; try discriminate. injection Hf as <-.
       rewrite Hsplit, find_mid in Hm by assumption. injection Hm as <-.
-      pose proof (wf_obj_names H enc parse_index parse_usize _ Hw) as Hn0.
+      pose proof (wf_obj_names H enc parse_index parse_usize pos _ Hw) as Hn0.
       assert (Hn' : Forall sd_names_ok (pre ++ (key, (MHid salt, s0)) :: post)).
       { rewrite Hsplit in Hn0. apply Forall_app in Hn0 as [Hn1 Hn2]. apply Forall_app. split; [assumption|].
         inversion Hn2; subst. constructor; [|assumption]. unfold sd_names_ok in *. cbn in *. assumption. }
